@@ -299,9 +299,18 @@ pub fn run(rep: &Report) {
     histories(rep, 600, 32, true, 0xC05);
     source_roundtrip(rep, 41 * 16 * 2, true, 0xC05);
     let t = rep.thorough();
-    singles(rep, if t { 20_000 } else { 300 }, false, rep.seed ^ 0x50);
-    histories(rep, if t { 200_000 } else { 2500 }, if t { 1024 } else { 64 }, false, rep.seed ^ 0x51);
-    source_roundtrip(rep, if t { 200_000 } else { 3000 }, false, rep.seed ^ 0x52);
+    singles(rep, if t { 20_000 } else { 1500 }, false, rep.seed ^ 0x50);
+    histories(rep, if t { 200_000 } else { 10_000 }, if t { 1024 } else { 64 }, false, rep.seed ^ 0x51);
+    source_roundtrip(rep, if t { 200_000 } else { 12_000 }, false, rep.seed ^ 0x52);
+    crate::insplane::edge_plane(rep, if t { 400_000 } else { 8000 }, rep.seed ^ 0xE5, false, "C05 data transfer at the end of memory", "xfer", &|rng| {
+        let bl: Vec<&str> = crate::c01::BLABELS.iter().map(|x| x.0).collect();
+        let wl: Vec<&str> = crate::c01::WLABELS.iter().map(|x| x.0).collect();
+        match rng.below(3) {
+            0 => mov_form(rng.below(MOV_FORMS), rng, &bl, &wl),
+            1 => xchg_form(rng.below(XCHG_FORMS), rng, &bl, &wl),
+            _ => stack_form(rng.below(STACK_FORMS), rng, &wl),
+        }
+    });
     rep.floor("data-transfer evaluations", rep.evals(), 100_000);
 }
 
